@@ -169,6 +169,8 @@ Section all2.
 End all2.
 
 Definition is_str (k : carrier) : bool := match k with KBase BStr => true | _ => false end.
+(* Cow<'a, [u8]> is written KCow (KBase BSliceU8): BSliceU8 is `&[u8]`, the type Cow borrows *)
+Definition is_slice_u8 (k : carrier) : bool := match k with KBase BSliceU8 => true | _ => false end.
 Definition emptiable_carrier (k : carrier) : bool := match k with KBase b => emptiable b | _ => false end.
 
 (* "the trait is implemented for the carrier" (Rust decides this at compile time; the theorems
@@ -193,7 +195,8 @@ Fixpoint deser_impl (k : carrier) : bool :=
   match k with
   | KBase b => negb (is_nil (deser_base_types b))
   | KCqlValue | KFrameSlice | KUdtIter | KSecretString => true
-  | KRef k' | KCow k' => is_str k'                       (* &'a str; Cow<'a, str> through <&str> *)
+  | KRef k' => is_str k'                                 (* &'a str *)
+  | KCow k' => is_str k' || is_slice_u8 k'               (* Cow<'a, str>, Cow<'a, [u8]> through <&T> *)
   | KBox k' | KArc k' => is_str k' || deser_impl k'      (* the special Box<str> / Arc<str> heads *)
   | KOption k' | KSecret08 k' | KSecretBox10 k' | KSecretSlice k' | KVec k' | KHashSet k' | KBTreeSet k'
   | KListIter k' | KVecIter k' => deser_impl k'
@@ -580,7 +583,9 @@ Fixpoint deser_check (k : carrier) (t : ctype) {struct k} : tres :=
   | KCqlValue | KFrameSlice => None
   | KOption k' | KMaybeEmpty k' | KSecret08 k' | KSecretBox10 k' => deser_check k' t
   (* &'a str (impl_string_type!), Cow<'a, T> where &T: DeserializeValue *)
-  | KRef k' | KCow k' => if is_str k' then t_native t string_types else Some TE_NoImpl
+  | KRef k' => if is_str k' then t_native t string_types else Some TE_NoImpl
+  | KCow k' => if is_str k' then t_native t string_types
+               else if is_slice_u8 k' then t_native t [NBlob] else Some TE_NoImpl
   (* Box<str> -> String's check, Arc<str> -> &str's check; otherwise T::type_check *)
   | KBox k' | KArc k' => if is_str k' then t_native t string_types else deser_check k' t
   | KSecretString => t_native t string_types
@@ -621,6 +626,29 @@ Definition deser_accepts (k : carrier) (t : ctype) : bool :=
    TypedRowIterator::new calls once before any row is read *)
 Definition row_accepts (ks : list carrier) (cols : list ctype) : bool :=
   (List.length ks =? List.length cols)%nat && all2 deser_accepts ks cols.
+
+(* the same with the error: WrongColumnCount, or the first failing column and its leaf kind *)
+Inductive rowck := RK_Ok | RK_WrongColumnCount | RK_Column (i : nat) (e : tck_err).
+Fixpoint row_cols (i : nat) (ks : list carrier) (cols : list ctype) : rowck :=
+  match ks, cols with
+  | k :: ks', t :: cols' =>
+      match deser_check k t with
+      | Some e => RK_Column i e
+      | None => row_cols (S i) ks' cols'
+      end
+  | _, _ => RK_Ok
+  end.
+Definition row_check (ks : list carrier) (cols : list ctype) : rowck :=
+  if (List.length ks =? List.length cols)%nat then row_cols 0 ks cols else RK_WrongColumnCount.
+
+(* deserialize/result.rs TypedRowIterator::new(raw): `R::type_check(raw.specs())?` comes first; an
+   iterator - the only way to R::deserialize - exists only when the check passed.  [rows] is the
+   number of rows the raw iterator holds: what the typed iterator may hand to deserialize. *)
+Definition typed_rows (ks : list carrier) (cols : list ctype) (rows : N) : result rowck N :=
+  match row_check ks cols with
+  | RK_Ok => Ok rows
+  | e => Err e
+  end.
 
 (* ====================================================================================== *)
 (* 7. SerializedValues: serialize/row.rs                                                   *)
@@ -705,6 +733,12 @@ Definition from_row (cols : list ctype) (vals : list (carrier * kval)) : result 
   | (b, cnt, None) => if u16_max <? cnt then Err RE_TooManyValues else Ok {| sv_bytes := b; sv_count := cnt |}
   end.
 
+(* SerializedValues::from_closure with a closure that adds cells (make_cell_writer) and whole rows
+   (RowWriter::append_serialize_row): value_count is a usize sum, converted to u16 at the end *)
+Definition closure_count (parts : list N) : result row_err N :=
+  let total := fold_left N.add parts 0 in
+  if u16_max <? total then Err RE_TooManyValues else Ok total.
+
 (* The same state held as the list of appended chunks, most recent first: what the correspondence
    driver uses for long sequences (lemma add_value_chunks: it is add_value on the concatenation). *)
 Definition add_value_chunks (cs : list bytes) (cnt : N) (k : carrier) (t : ctype) (v : kval)
@@ -777,108 +811,129 @@ Fixpoint can_be_empty (k : carrier) : bool :=
 Definition vec_elem_ok (k : carrier) (e : ctype) : bool :=
   negb (nullable k) && (negb (can_be_empty k) || negb (is_some (type_size e))).
 
-(* [compat lib d k t]: carrier k goes with CQL type t in direction d.
-   lib = false: exactly what the documentation lists ([doc_compat]).
-   lib = true adds the two relaxations that the API documentation of the error types states for
-   serialisation ([spec_compat]):
-     - TupleTypeCheckErrorKind::WrongElementCount: "it is allowed to write a Rust tuple with less
-       elements than the corresponding CQL type, but not more";
-     - SetOrListTypeCheckErrorKind::NotSetOrList (raised for Vec, HashSet and BTreeSet alike):
-       "The CQL type is neither a set, nor a list, nor a vector" - a Rust set may be bound to a
-       list column (same wire format). *)
-Fixpoint compat (lib : bool) (d : dir) (k : carrier) (t : ctype) {struct k} : bool :=
+(* What the documentation does NOT give, and the code concedes (serialisation only).  Each is a
+   flag of [compat], so that a reader sees what each concession lets through:
+     r_tuple  a Rust tuple may have fewer components than the CQL tuple (rustdoc of
+              TupleTypeCheckErrorKind::WrongElementCount: "it is allowed to write a Rust tuple with
+              less elements than the corresponding CQL type, but not more");
+     r_set    a Rust HashSet / BTreeSet may be bound to a list column (same wire format; rustdoc of
+              SetOrListTypeCheckErrorKind::NotSetOrList: "neither a set, nor a list, nor a vector");
+     r_unset  Unset / MaybeUnset below the bind marker itself (as a list element, map key or value,
+              tuple field): values.md documents them for bind values only - the protocol defines
+              "not set" for a [value] and not for the [bytes] items inside one; the code writes the
+              -2 marker there, a server reads a negative [bytes] length as null.  No documentation
+              supports this one: it is conceded, not specified (observation O2 of docs/C17.md);
+     r_vec    the vector element rule [vec_elem_ok] dropped: NOT conceded - this is finding F2b. *)
+Record relax := { r_tuple : bool; r_set : bool; r_unset : bool; r_vec : bool }.
+Definition docs_only : relax := {| r_tuple := false; r_set := false; r_unset := false; r_vec := false |}.
+Definition conceded : relax := {| r_tuple := true; r_set := true; r_unset := true; r_vec := false |}.
+Definition as_code : relax := {| r_tuple := true; r_set := true; r_unset := true; r_vec := true |}.
+
+(* [compat r d top k t]: carrier k goes with CQL type t in direction d; [top] = the position is
+   the bind marker / result column itself (not inside a collection, tuple or UDT). *)
+Fixpoint compat (r : relax) (d : dir) (top : bool) (k : carrier) (t : ctype) {struct k} : bool :=
   match k with
   (* values.md: "If we are sure that a value should be unset we can simply use Unset" *)
-  | KBase BUnset => is_ser d
+  | KBase BUnset => is_ser d && (top || r_unset r)
   | KBase b => match t with TNative n => doc_base d b n | _ => false end
   (* values.md sends CqlValue for any column; rustdoc: "CqlValue accepts all possible CQL types" *)
   | KCqlValue => true
   (* values.md: "Null values can be sent using Option<>"; result.md: "parse column as an Option<>" *)
-  | KOption k' => compat lib d k' t
+  | KOption k' => compat r d top k' t
   (* values.md: MaybeUnset (bind values only) *)
-  | KMaybeUnset k' => is_ser d && compat lib d k' t
+  | KMaybeUnset k' => is_ser d && (top || r_unset r) && compat r d top k' t
   (* rustdoc of MaybeEmpty: "When serializing, MaybeEmpty::Empty will produce an empty value
      (0 bytes) for emptiable types. When deserializing, an empty value will be represented as
      MaybeEmpty::Empty" *)
-  | KMaybeEmpty k' => supports_empty t && compat lib d k' t
+  | KMaybeEmpty k' => supports_empty t && compat r d top k' t
   (* data-types.md: Box, Arc, Cow for all types; the pages pass values by reference; secrecy
      wrappers expose the inner value *)
-  | KRef k' | KBox k' | KArc k' | KCow k' | KSecret08 k' | KSecretBox10 k' => compat lib d k' t
+  | KRef k' | KBox k' | KArc k' | KCow k' | KSecret08 k' | KSecretBox10 k' => compat r d top k' t
   (* `List` <----> `Vec<T>`, `Set` <----> `Vec<T>`, `Vector` <----> `Vec<T>` *)
   | KVec k' =>
       match t with
-      | TList e | TSet e => compat lib d k' e
-      | TVector e _ => compat lib d k' e && (is_de d || vec_elem_ok k' e)
+      | TList e | TSet e => compat r d false k' e
+      | TVector e _ => compat r d false k' e && (is_de d || r_vec r || vec_elem_ok k' e)
       | _ => false
       end
   | KSlice k' =>
       is_ser d &&
       match t with
-      | TList e | TSet e => compat lib d k' e
-      | TVector e _ => compat lib d k' e && vec_elem_ok k' e
+      | TList e | TSet e => compat r d false k' e
+      | TVector e _ => compat r d false k' e && (r_vec r || vec_elem_ok k' e)
       | _ => false
       end
   (* collections.md: "Set is represented as Vec<T>, HashSet<T> or BTreeSet<T>" *)
   | KHashSet k' | KBTreeSet k' =>
       match t with
-      | TSet e => compat lib d k' e
-      | TList e => lib && is_ser d && compat lib d k' e
+      | TSet e => compat r d false k' e
+      | TList e => r_set r && is_ser d && compat r d false k' e
       | _ => false
       end
   (* collections.md: "Map is represented as HashMap<K, V> or BTreeMap<K, V>" *)
   | KHashMap a b | KBTreeMap a b =>
-      match t with TMap tk tv => compat lib d a tk && compat lib d b tv | _ => false end
+      match t with TMap tk tv => compat r d false a tk && compat r d false b tv | _ => false end
   (* tuple.md: "Tuple is represented as rust tuples of max 16 elements" *)
   | KTuple ks =>
       match t with
       | TTuple ts =>
-          (if lib && is_ser d then (List.length ks <=? List.length ts)%nat
-           else (List.length ks =? List.length ts)%nat) && all2 (compat lib d) ks ts
+          (if r_tuple r && is_ser d then (List.length ks <=? List.length ts)%nat
+           else (List.length ks =? List.length ts)%nat) && all2 (compat r d false) ks ts
       | _ => false
       end
   (* rustdoc: SecretString / SecretSlice decode as String / Vec<S> *)
   | KSecretString => is_de d && native_in t string_types
   | KSecretSlice k' =>
-      is_de d && match t with TList e | TSet e | TVector e _ => compat lib d k' e | _ => false end
+      is_de d && match t with TList e | TSet e | TVector e _ => compat r d false k' e | _ => false end
   (* rustdoc: "An iterator over either a CQL set or list" *)
-  | KListIter k' => is_de d && match t with TList e | TSet e => compat lib d k' e | _ => false end
+  | KListIter k' => is_de d && match t with TList e | TSet e => compat r d false k' e | _ => false end
   (* rustdoc: "A deserialization iterator over a CQL vector" *)
-  | KVecIter k' => is_de d && match t with TVector e _ => compat lib d k' e | _ => false end
+  | KVecIter k' => is_de d && match t with TVector e _ => compat r d false k' e | _ => false end
   | KMapIter a b =>
-      is_de d && match t with TMap tk tv => compat lib d a tk && compat lib d b tv | _ => false end
+      is_de d && match t with TMap tk tv => compat r d false a tk && compat r d false b tv | _ => false end
   (* rustdoc: "An iterator over fields of a User Defined Type" *)
   | KUdtIter => is_de d && match t with TUdt _ _ _ => true | _ => false end
   (* rustdoc: pairs the raw slice of any column with its type *)
   | KFrameSlice => is_de d
   end.
 
-Definition doc_compat : dir -> carrier -> ctype -> bool := compat false.
-Definition spec_compat : dir -> carrier -> ctype -> bool := compat true.
+(* the documentation alone / the documentation plus the three concessions / what the code does *)
+Definition doc_compat (d : dir) (k : carrier) (t : ctype) : bool := compat docs_only d true k t.
+Definition spec_compat (d : dir) (k : carrier) (t : ctype) : bool := compat conceded d true k t.
+Definition code_compat (k : carrier) (t : ctype) : bool := compat as_code Ser true k t.
+(* accepted by the specification although the documentation does not list it *)
+Definition relaxed (k : carrier) (t : ctype) : bool := spec_compat Ser k t && negb (doc_compat Ser k t).
 
 (* ====================================================================================== *)
 (* 9. Known class "vector-null-element" (finding F2b, open)                                 *)
 (* ====================================================================================== *)
-(* Somewhere in the pair a sequence carrier is bound to a vector type while its element carrier
-   can produce null / unset (or the empty value at a fixed-width element type): serialisation
-   accepts the pair although the vector format cannot express such elements - set_null /
-   set_unset ignore `write_size`, set_value(&[]) writes nothing. *)
-Fixpoint known_class (k : carrier) (t : ctype) {struct k} : bool :=
+(* A sequence carrier is bound to a vector type while its element carrier can produce null /
+   unset (or the empty value at a fixed-width element type): serialisation accepts the pair
+   although the vector format cannot express such elements - set_null / set_unset ignore
+   `write_size`, set_value(&[]) writes nothing.
+   [vector_elem_hole]: the shape (somewhere in the pair such an element carrier sits under a
+   vector type).  [known_class]: the pairs the code ACCEPTS and the specification excludes; by
+   theorem C17_known_class_shape they all have the shape, and by C17_code_matrix the vector
+   element rule is the only rule the code lacks. *)
+Fixpoint vector_elem_hole (k : carrier) (t : ctype) {struct k} : bool :=
   match k with
   | KOption k' | KMaybeUnset k' | KMaybeEmpty k' | KRef k' | KBox k' | KArc k' | KCow k' | KSecret08 k'
-  | KSecretBox10 k' => known_class k' t
+  | KSecretBox10 k' => vector_elem_hole k' t
   | KVec k' | KSlice k' =>
       match t with
-      | TList e | TSet e => known_class k' e
-      | TVector e _ => negb (vec_elem_ok k' e) || known_class k' e
+      | TList e | TSet e => vector_elem_hole k' e
+      | TVector e _ => negb (vec_elem_ok k' e) || vector_elem_hole k' e
       | _ => false
       end
   | KHashSet k' | KBTreeSet k' =>
-      match t with TList e | TSet e => known_class k' e | _ => false end
+      match t with TList e | TSet e => vector_elem_hole k' e | _ => false end
   | KHashMap a b | KBTreeMap a b =>
-      match t with TMap tk tv => known_class a tk || known_class b tv | _ => false end
-  | KTuple ks => match t with TTuple ts => any2 known_class ks ts | _ => false end
+      match t with TMap tk tv => vector_elem_hole a tk || vector_elem_hole b tv | _ => false end
+  | KTuple ks => match t with TTuple ts => any2 vector_elem_hole ks ts | _ => false end
   | _ => false
   end.
+
+Definition known_class (k : carrier) (t : ctype) : bool := ser_accepts k t && negb (spec_compat Ser k t).
 
 (* the carrier contains no CqlValue: its type checks do not depend on the value *)
 Fixpoint static (k : carrier) : bool :=
@@ -1006,6 +1061,128 @@ Fixpoint dyn_known (t : ctype) (v : cval) {struct t} : bool :=
       end
   | _ => false
   end.
+
+(* ---- values of all carriers ---------------------------------------------------------------- *)
+(* "The value v of carrier k, as it will be written, is a value of the column type t": what the
+   property asks of the BYTES.  A null is a value of every type; a collection is a value of a
+   collection type if its elements are values of the element type (an empty one always is); a
+   vector has its dimension and no element without a representation; a CqlValue must be
+   [dyn_fits].  Not-set markers count as null below the bind marker (concession r_unset). *)
+Fixpoint hole_val (fixed : bool) (v : kval) : bool :=
+  match v with
+  | VNull | VUnset => true
+  | VEmpty | VLeaf CEmpty => fixed
+  | VWrap x => hole_val fixed x
+  | _ => false
+  end.
+
+Fixpoint val_fits (k : carrier) (t : ctype) (v : kval) {struct k} : bool :=
+  match k with
+  | KBase BUnset => match v with VUnset => true | _ => false end
+  | KBase b => match v with VLeaf x => native_in t (ser_base_types b) && base_payload b x | _ => false end
+  | KCqlValue => match v with VLeaf x => dyn_fits t x | _ => false end
+  | KOption k' => match v with VNull => true | VWrap x => val_fits k' t x | _ => false end
+  | KMaybeUnset k' => match v with VUnset => true | VWrap x => val_fits k' t x | _ => false end
+  | KMaybeEmpty k' =>
+      supports_empty t && match v with VEmpty => true | VWrap x => val_fits k' t x | _ => false end
+  | KRef k' | KBox k' | KArc k' | KCow k' | KSecret08 k' | KSecretBox10 k' =>
+      match v with VWrap x => val_fits k' t x | _ => false end
+  | KVec k' | KSlice k' =>
+      match v with
+      | VSeq l =>
+          match t with
+          | TList e | TSet e => forallb (val_fits k' e) l
+          | TVector e dim =>
+              (N.of_nat (List.length l) =? dim) &&
+              forallb (fun x => negb (hole_val (is_some (type_size e)) x) && val_fits k' e x) l
+          | _ => false
+          end
+      | _ => false
+      end
+  | KHashSet k' | KBTreeSet k' =>
+      match v with
+      | VSeq l => match t with TList e | TSet e => forallb (val_fits k' e) l | _ => false end
+      | _ => false
+      end
+  | KHashMap a b | KBTreeMap a b =>
+      match v with
+      | VMap l =>
+          match t with
+          | TMap tk tv => forallb (fun kv => val_fits a tk (fst kv) && val_fits b tv (snd kv)) l
+          | _ => false
+          end
+      | _ => false
+      end
+  | KTuple ks =>
+      match v with
+      | VTup vs =>
+          match t with
+          | TTuple ts =>
+              (List.length ks <=? List.length ts)%nat && (List.length ks =? List.length vs)%nat &&
+              (fix go (ks : list carrier) (ts : list ctype) (vs : list kval) {struct ks} : bool :=
+                 match ks, ts, vs with
+                 | k1 :: ks', t1 :: ts', v1 :: vs' => val_fits k1 t1 v1 && go ks' ts' vs'
+                 | _, _, _ => true
+                 end) ks ts vs
+          | _ => false
+          end
+      | _ => false
+      end
+  | KSecretString | KSecretSlice _ | KListIter _ | KVecIter _ | KMapIter _ _ | KUdtIter | KFrameSlice => false
+  end.
+
+(* the known class at the value level: somewhere an element without a representation sits in a
+   vector (typed carriers), or [dyn_known] holds of a CqlValue *)
+Fixpoint val_known (k : carrier) (t : ctype) (v : kval) {struct k} : bool :=
+  match k with
+  | KCqlValue => match v with VLeaf x => dyn_known t x | _ => false end
+  | KOption k' | KMaybeUnset k' | KMaybeEmpty k' | KRef k' | KBox k' | KArc k' | KCow k' | KSecret08 k'
+  | KSecretBox10 k' => match v with VWrap x => val_known k' t x | _ => false end
+  | KVec k' | KSlice k' =>
+      match v with
+      | VSeq l =>
+          match t with
+          | TList e | TSet e => existsb (val_known k' e) l
+          | TVector e _ => existsb (fun x => hole_val (is_some (type_size e)) x || val_known k' e x) l
+          | _ => false
+          end
+      | _ => false
+      end
+  | KHashSet k' | KBTreeSet k' =>
+      match v with
+      | VSeq l => match t with TList e | TSet e => existsb (val_known k' e) l | _ => false end
+      | _ => false
+      end
+  | KHashMap a b | KBTreeMap a b =>
+      match v with
+      | VMap l =>
+          match t with
+          | TMap tk tv => existsb (fun kv => val_known a tk (fst kv) || val_known b tv (snd kv)) l
+          | _ => false
+          end
+      | _ => false
+      end
+  | KTuple ks =>
+      match v with
+      | VTup vs =>
+          match t with
+          | TTuple ts =>
+              (fix go (ks : list carrier) (ts : list ctype) (vs : list kval) {struct ks} : bool :=
+                 match ks, ts, vs with
+                 | k1 :: ks', t1 :: ts', v1 :: vs' => val_known k1 t1 v1 || go ks' ts' vs'
+                 | _, _, _ => false
+                 end) ks ts vs
+          | _ => false
+          end
+      | _ => false
+      end
+  | _ => false
+  end.
+
+(* the errors by which a misfit is refused: a type-check error, or - checked before the elements -
+   the vector length / element count errors *)
+Definition is_refusal (e : kerr) : bool :=
+  is_typeck e || match e with KE SE_VectorLen | KE SE_TooManyElements => true | _ => false end.
 
 (* the errors that a value OF the type can still get: sizes beyond the wire format's i32 *)
 Definition is_size_err (e : kerr) : bool :=
